@@ -1,7 +1,7 @@
 /-
 C17 — simulation of control-free runs, part 5: from the generic theorem to `Good` of a serial composite.
 -/
-import TboxModel.C17.Sim4
+import TboxModel.C17.Live
 namespace Tbox.C17
 set_option linter.unusedSimpArgs false
 set_option linter.unusedVariables false
@@ -114,5 +114,55 @@ theorem good_serial (d : Node) (cs : TL) (hc : cleanNode d = true) (hser : d.isS
     have := hgen ops hcf
     rw [hval, hvis] at this
     exact this
+
+/-- ... and to its progress: finished after `cost` big ops -/
+theorem live_serial (d : Node) (cs : TL) (hc : cleanNode d = true) (hser : d.isSerial = true) (htmo : d.tmo = none)
+    (hcl : CleanL cs = true) (hgoodc : ∀ j c, cs.get? j = some c → Good c)
+    (KI : Node → Next → List Nat → Prop) (val : Node → Next → Option (Bool × Nat)) (vis : Node → Next → List Nat)
+    (hK : KSpec cs KI val vis)
+    (hki : KI (decNode d cs.length) (serialStart {} d cs.length).2 (List.range cs.length))
+    (hval : val (decNode d cs.length) (serialStart {} d cs.length).2 = eval (.node d cs)) (hmult : mult d = 1)
+    (hlivec : ∀ j c, cs.get? j = some c → Live c) : Live (.node d cs) := by
+  intro g hg hev M hM ops hcf hcost
+  have hF : Fresh cs cs (List.range cs.length) := by
+    intro j hj
+    obtain ⟨c, hcget⟩ := get_of_lt cs j (List.mem_range.1 hj)
+    exact ⟨c, hcget, hcget, hgoodc j c hcget⟩
+  have hd := dps_decNode d cs hc hser htmo hcl
+  have hnx : ∀ j rst onFail, (serialStart {} d cs.length).2 = .start j rst onFail →
+      rst = [] ∧ ∃ c, cs.get? j = some c ∧ (start c g).2.2 = true := by
+    intro j rst onFail e
+    rw [e] at hki
+    obtain ⟨hr, hj⟩ := hK.kstart _ j rst onFail _ hki
+    obtain ⟨c, hcget, _, hgc⟩ := hF j hj
+    exact ⟨hr, c, hcget, (hgc g hg).1⟩
+  rw [start_serial d cs g hc hser htmo hg.1 hnx]
+  have hsk : d.isLeaf = false := by
+    cases hl : d.isLeaf with
+    | false => rfl
+    | true => simp [Node.isSerial, hl] at hser
+  have hcostE : cost (.node d cs) = costL cs := by
+    rw [cost, hmult]; cases hk : d.kind <;> simp [Node.isLeaf, hk] at hsk ⊢
+  have hML : maxDelayL cs ≤ M := by
+    have : maxDelayL cs ≤ maxDelay (.node d cs) := by rw [maxDelay]; omega
+    omega
+  have hL : ∀ j c, cs.get? j = some c → Live c ∧ maxDelay c ≤ M := fun j c h =>
+    ⟨hlivec j c h, Nat.le_trans (maxDelayL_get cs j c h) hML⟩
+  have := gen_live cs KI val vis hK M hL (List.length ops) ops (Nat.le_refl _) (decNode d cs.length) cs g
+    (serialStart {} d cs.length).2 (List.range cs.length) hcf hd rfl hF (List.nodup_range) hki hg
+    (by rw [hval]; exact hev) (by rw [need_range, ← hcostE]; exact hcost)
+  rw [need_range, ← hcostE] at this
+  exact this
+
+theorem both_serial (d : Node) (cs : TL) (hc : cleanNode d = true) (hser : d.isSerial = true) (htmo : d.tmo = none)
+    (hcl : CleanL cs = true) (hgoodc : ∀ j c, cs.get? j = some c → Good c) (hmult : mult d = 1)
+    (KI : Node → Next → List Nat → Prop) (val : Node → Next → Option (Bool × Nat)) (vis : Node → Next → List Nat)
+    (hK : KSpec cs KI val vis)
+    (hki : KI (decNode d cs.length) (serialStart {} d cs.length).2 (List.range cs.length))
+    (hval : val (decNode d cs.length) (serialStart {} d cs.length).2 = eval (.node d cs))
+    (hvis : vis (decNode d cs.length) (serialStart {} d cs.length).2 = visit (.node d cs)) :
+    Good (.node d cs) ∧ ((∀ j c, cs.get? j = some c → Live c) → Live (.node d cs)) :=
+  ⟨good_serial d cs hc hser htmo hcl hgoodc KI val vis hK hki hval hvis,
+   live_serial d cs hc hser htmo hcl hgoodc KI val vis hK hki hval hmult⟩
 
 end Tbox.C17
